@@ -109,6 +109,11 @@
 // #![warn(missing_docs)] -- suppressed at top of file (P3.7 task)
 #![deny(unsafe_op_in_unsafe_fn)]
 
+#[macro_use]
+mod verif_macros;
+#[cfg(zipora_verif)]
+pub mod verif_hooks;
+
 pub mod algorithms;
 pub mod blob_store;
 pub mod cache;
